@@ -26,12 +26,12 @@ WP(j) == X!T12(LAMBDA i : IF i = j + 1 THEN 1 ELSE 0)
 RECURSIVE PowP(_, _)
 PowP(a, k) == IF k = 0 THEN a ELSE PowP(X!Pow(a, PBits), k - 1)              \* a^(13^k)
 \* ---------------------------------------------------------------- state: two selectors
-VARIABLES xa, ya, lvl
+VARIABLES xa, ya, lvl, res         \* res: "todo" -> "ok" | "bad"; the checks are evaluated in Next (TLC worker threads), not on initial states (main thread only)
 Fq2All == Fp \X Fp
-Init2 == lvl = 2 /\ xa \in Fq2All /\ ya \in Fq2All
+Init2 == res = "todo" /\ lvl = 2 /\ xa \in Fq2All /\ ya \in Fq2All
 Fq4Y == { << <<1, 0>>, <<0, 0>> >>, << <<0, 1>>, <<0, 0>> >>, << <<0, 0>>, <<1, 0>> >>, << <<0, 0>>, <<0, 1>> >>, << <<12, 12>>, <<12, 12>> >>,
           << <<3, 7>>, <<0, 0>> >>, << <<0, 0>>, <<5, 11>> >>, << <<2, 9>>, <<4, 6>> >>, << <<12, 0>>, <<0, 1>> >>, << <<7, 7>>, <<7, 6>> >> }
-Init4 == lvl = 4 /\ xa \in (Fq2All \X Fq2All) /\ ya \in Fq4Y
+Init4 == res = "todo" /\ lvl = 4 /\ xa \in (Fq2All \X Fq2All) /\ ya \in Fq4Y
 \* F_13^12 samples: LCG-generated dense elements, sparse ones, units of the subfields
 Lcg(s) == (s * 75 + 74) % 65537
 RECURSIVE Dig(_, _)
@@ -39,8 +39,8 @@ Dig(s, n) == IF n = 0 THEN <<>> ELSE <<Lcg(s) % 13>> \o Dig(Lcg(s), n - 1)
 Dense(s) == TA!FromPoly(Dig(s, 12))
 Sparse(s) == TA!FromPoly([i \in 1..12 |-> IF (s + i) % 4 = 0 THEN Dig(s, 12)[i] ELSE 0])
 S12 == { Dense(s) : s \in 1..14 } \cup { Sparse(s) : s \in 20..31 } \cup { TA!O12, << TA!Z4, TA!O4, TA!Z4 >>, << TA!Z4, TA!Z4, TA!O4 >> }
-Init12 == lvl = 12 /\ xa \in S12 /\ ya \in S12
-Next == UNCHANGED << xa, ya, lvl >>
+Init12 == res = "todo" /\ lvl = 12 /\ xa \in S12 /\ ya \in S12
+
 \* ---------------------------------------------------------------- invariants
 Fq2OK == lvl = 2 =>
     /\ P2(TA!Mul2(xa, ya)) = X!Mul(P2(xa), P2(ya))
@@ -55,8 +55,8 @@ Fq4OK == lvl = 4 =>
     /\ (ya[1] = TA!Z2 => TA!Mul1_4(xa, ya) = TA!Mul4(xa, ya))
     /\ (Norm4(xa) # TA!Z2 => TA!Mul4(TA!Inv4(xa), xa) = TA!O4)
 \* the eight Frobenius codes, on every element of F_13^4 (one fixed second operand)
-Init4F == lvl = 4 /\ xa \in (Fq2All \X Fq2All) /\ ya = << <<1, 0>>, <<0, 0>> >>
-Fq4Frob == lvl = 4 =>
+Init4F == res = "todo" /\ lvl = 5 /\ xa \in (Fq2All \X Fq2All) /\ ya = << <<1, 0>>, <<0, 0>> >>
+Fq4Frob == lvl = 5 =>
     \A code \in {10, 11, 12, 21, 22, 30, 31, 32} :
           X!Mul(P4(TA!Frob4(xa, code)), WP(code % 10)) = PowP(X!Mul(P4(xa), WP(code % 10)), code \div 10)
 Sparse015(y) == << y[1], TA!Z4, << TA!Z2, y[3][2] >> >>
@@ -67,4 +67,6 @@ T12NR == lvl = 12 => TA!ToPoly(TA!MulNR12(xa)) = X!Mul(TA!ToPoly(xa), WP(1)) /\ 
 T12Frob == lvl = 12 => \A k \in {1, 2, 3, 6} : TA!ToPoly(TA!Frob12(xa, k)) = PowP(TA!ToPoly(xa), k) /\ TA!ToPoly(TA!Frob12(xa, k)) = X!Frob(TA!ToPoly(xa), k)
 T12Inv == lvl = 12 => (X!Mul(TA!ToPoly(xa), X!Inv(TA!ToPoly(xa))) = X!One => TA!Mul12(TA!Inv12(xa), xa) = TA!O12)
 Fq12OK == T12Mul /\ T12Sqr /\ T12M015 /\ T12NR /\ T12Frob /\ T12Inv
+Next == res = "todo" /\ UNCHANGED << xa, ya, lvl >> /\ res' = (IF Fq2OK /\ Fq4OK /\ Fq4Frob /\ Fq12OK THEN "ok" ELSE "bad")
+AllOK == res # "bad"
 =============================================================================
